@@ -281,7 +281,7 @@ pub fn run(thorough: bool, seed: u64, driver: &str, rep: &mut Report) {
                 for s in all_shapes(n) {
                     for mode in [LenMode::All, LenMode::Mixed] {
                         let mut t = s.clone();
-                        label(&mut rng, &mut t, &LabelOpts { len_mode: mode, comments_pct: 20, ..Default::default() });
+                        let rl = rng.chance(1, 3); label(&mut rng, &mut t, &LabelOpts { len_mode: mode, comments_pct: 20, root_len: rl, ..Default::default() });
                         run_all(&t, &mut rng, true, rep, &mut batch);
                         rep.count("exhaustive_shapes_x_masks");
                     }
@@ -294,7 +294,7 @@ pub fn run(thorough: bool, seed: u64, driver: &str, rep: &mut Report) {
                 let size = rng.range(2, 60);
                 let mut t = random_shape(&mut rng, size);
                 let mode = *rng.pick(&[LenMode::All, LenMode::All, LenMode::Mixed, LenMode::None]);
-                label(&mut rng, &mut t, &LabelOpts { len_mode: mode, comments_pct: 10, ..Default::default() });
+                let rl = rng.chance(1, 3); label(&mut rng, &mut t, &LabelOpts { len_mode: mode, comments_pct: 10, root_len: rl, ..Default::default() });
                 run_all(&t, &mut rng, false, rep, &mut batch);
                 rep.count("random_trees");
                 if batch.n_requests() > 100_000 {
